@@ -11,7 +11,7 @@ from .codec import (composite_codec_decode_from_pdu, composite_codec_encode_into
 from .complexdop import ComplexDop
 from .decodestate import DecodeState
 from .encodestate import EncodeState
-from .exceptions import DecodeError, odxraise
+from .exceptions import DecodeError, EncodeError, odxraise
 from .nameditemlist import NamedItemList
 from .odxlink import OdxDocFragment, OdxLinkDatabase, OdxLinkId
 from .odxtypes import ParameterValue
@@ -82,7 +82,11 @@ class BasicStructure(ComplexDop):
         if self.byte_size is not None:
             actual_len = encode_state.cursor_byte_position - orig_pos
 
-            if actual_len < self.byte_size:
+            if actual_len > self.byte_size:
+                odxraise(
+                    f"The content of structure {self.short_name} occupies {actual_len} bytes "
+                    f"which exceeds its BYTE-SIZE of {self.byte_size} bytes", EncodeError)
+            elif actual_len < self.byte_size:
                 # Padding bytes are needed. We move the cursor to the
                 # position directly after the structure and make sure
                 # that the PDU is large enough. (the byte size is
